@@ -2181,6 +2181,13 @@ static program_t *epilog ()
               *func = *FUNCTION_RENTRY (which);
               FUNCTION_FLAGS (i) = FUNCTION_FLAGS (which) | NAME_ALIAS;
             }
+          else
+            {
+              /* the alias keeps its own inherited entry, but it must carry the
+               * modifiers (static, private, ...) of the function as well:
+               * apply_low() tests the flags of the slot it found the function by */
+              FUNCTION_FLAGS (i) |= (FUNCTION_FLAGS (which) & NAME_TYPE_MOD);
+            }
         }
     }
   generate_final_program (1);
